@@ -33,15 +33,12 @@ OPEN_STATEMENTS = [
     'reversal); that numpy.ix_ extracts those rows / columns in list order is the indexing contract (restrict stream)',
     'iterate_basis_spec is proved for both flags (iterate_basis_spec_nospin, iterate_basis_spec_spin; the spin version is stated '
     'through vacated / filled alpha and beta orbitals, not through countTrue of the even / odd sublists)',
-    'number_preserving_sparse_operator_sound (matrix = compression of the operator to the determinant basis) as one statement: '
-    'not assembled; its ingredients are proved: the basis enumeration for both flags (iterate_basis_spec_*), injectivity of the '
-    'integer encoding (encode_det_injective), the lookup = membership in the basis with the position (lookup_sound), the sign / '
-    'target loop = Spec action (build_term_op_sound), and these assembled for one term (build_term_op_entries: exactly the '
-    'entries (position of the target determinant, s, sign exponent) for the determinants passing the pre-filter; '
-    'build_term_op_entries_spec: Spec sign and Spec image), and the pre-filter passes exactly the states on which a '
-    'normal-ordered term with distinct creation and distinct annihilation modes does not vanish (prefilter_exact); the '
-    'summation of the entries over the terms into the sparse matrix (and that normal_ordered yields such terms: another '
-    'property) is covered by the number-preserving stream (every entry against Spec.melF)',
+    'number_preserving_sparse_operator_sound is proved as one statement for operators whose terms are normal-ordered with '
+    'distinct creation and distinct annihilation modes (NormalTerm): basis = _iterate_basis_, entry (r, c) = Spec.melF between '
+    'the basis states of determinants r and c (pieces: iterate_basis_spec_*, encode_det_injective, lookup_sound, '
+    'build_term_op_sound, build_term_op_entries(_spec), prefilter_exact); that normal_ordered yields such terms belongs to '
+    'another property and is tied here by the number-preserving stream (every entry against Spec.melF of the original operator); '
+    'the csc construction / summing of duplicate entries by scipy is trusted (mirrored by the dictionary accumulation)',
     'expectation_cbs_list_sound: expectation value = <s|F|s> for normal-ordered operators with at most two-body terms: proved '
     'are the agreement of the vector and list conventions (expectation_vector_is_list) and the Spec diagonal elements of the '
     'three kinds of terms the function reads (expectation_terms_sound); the summation over the dictionary is not',
